@@ -542,7 +542,11 @@ def n8_zero_fraction(ctx):
         m_ = re.fullmatch(r'f64::abs\(f64::trunc\((.*)\)\)|f64::trunc\(f64::abs\((.*)\)\)', tr)
         base = (m_.group(1) or m_.group(2)) if m_ else None
         args = [render(fb.expr(t['args'][0])) for _, t in fi]
-        if len(fi) == 1 and base is not None and args[0] in ('f64::fract(%s)' % base, 'f64::fract(f64::abs(%s))' % base):
+        rounded = re.fullmatch(r'f64::fract\((?:f64::abs\()?(?:tools::)?do_divition\(f64::round\(\(number Mul (.+)\)\), (.+)\)\)?\)', args[0]) if len(fi) == 1 else None
+        if len(fi) == 1 and not tr and rounded and rounded.group(1) == rounded.group(2):
+            # the integer part is measured on the printed rendering itself; the zero test reads the value rounded to the digit count
+            ctx.ok('N8', 'the zero test reads the fraction of the number rounded to the configured digits; the omission decision is tabulated by N9', 'table', site=fi[0][1]['loc'])
+        elif len(fi) == 1 and base is not None and args[0] in ('f64::fract(%s)' % base, 'f64::fract(f64::abs(%s))' % base):
             ctx.ok('N8', 'the zero test reads the fraction of the rounded value whose integer part is printed; the omission decision is tabulated by N9', 'table', site=fi[0][1]['loc'])
         else:
             ctx.finding('N8', 'format_number/fraction-source', 'the zero-fraction test is applied to %s, while the integer part printed is that of %s' % (args, tr[:120]), site=fb.loc)
